@@ -61,10 +61,27 @@ def run(ck, models, tier):
             def dep_in(v, e):
                 return sig in deps(v, e)[0]
             n_eff = 0
-            gate_kinds = set()
-            if tm.arch != "arm":
-                # effects: allocation / writes / ffi
-                pass
+
+            def classify(v, d_):
+                """(kind, equal_edge) of a gate decision: kind in 'eq-bool' | 'affix-whole' | 'affix-part' | 'other'."""
+                c = d_[0]
+                neg = c.op == "not"
+                core = c.args[0] if neg else c
+                val = d_[1] if not neg else (1 - d_[1] if isinstance(d_[1], int) else d_[1])
+                if core.op in AFFIX:
+                    subject = core.args[0]
+                    whole = subject == sig or (subject.op in ("trim", "trim_end", "trim_start") and subject.args[0] == sig)
+                    return ("affix-whole" if whole else "affix-part"), None, core
+                lv, strs, callees = deps(v, core)
+                top = core.args[0] if core.op == "ret" else core.op
+                is_eq = core.op in ("str_eq", "str_ne") or (core.op == "ret" and ("PartialEq" in top or top.endswith("::eq") or top.endswith("::ne")))
+                has_bool = any(x.strip() == "bool" for x in strs)
+                if is_eq and has_bool and not uses_leaf(core, lambda x: x.op in AFFIX):
+                    if top.endswith("::ne") or top == "str_ne":
+                        return "eq-bool", val == 0, core
+                    return "eq-bool", val == 1, core
+                return "other", None, core
+
             for v in vs:
                 eff = [e for e in v.trace if is_effect(e)]
                 if not eff:
@@ -78,58 +95,37 @@ def run(ck, models, tier):
                           len(eff), eff[0].name, "dominated" if ok else "NOT dominated",
                           (": " + "; ".join("%s=%s" % (fmt(g[0], 4), g[1]) for g in gates)) if gates else ""),
                       where(eff[0]))
-                for g in gates:
-                    c = g[0]
-                    core = c.args[0] if c.op == "not" else c
-                    gate_kinds.add((core, v))
-                    # polarity: the installation must lie on the edge where the extracted return type EQUALS bool
-                    top = core.args[0] if core.op == "ret" else core.op
-                    neg = c.op == "not"
-                    val = g[1] if not neg else 1 - g[1]
-                    if top.endswith("::ne") or top == "str_ne":
-                        equal_edge = val == 0
-                    elif top.endswith("::eq") or top == "str_eq":
-                        equal_edge = val == 1
+                cls = [classify(v, g) for g in gates]
+                good = [c for c in cls if c[0] == "eq-bool" and c[1]]
+                if good:
+                    ck.ob("R10.2", "%s/install-on-equal-edge-of-equality-with-bool" % rn, tm.target, True,
+                          "the installing path is on the equal edge of %s (equality of a part extracted from the recorded signature with the literal `bool`)" % fmt(good[0][2], 5), where(eff[0]))
+                    continue
+                wrong_edge = [c for c in cls if c[0] == "eq-bool" and c[1] is False]
+                aff = [c for c in cls if c[0].startswith("affix")]
+                if wrong_edge:
+                    ck.ob("R10.2", "%s/install-on-NOT-equal-edge" % rn, tm.target, False,
+                          "the installing path takes the not-equal edge of %s: the forced boolean is accepted exactly for functions that do not return bool" % fmt(wrong_edge[0][2], 5), where(eff[0]))
+                elif aff:
+                    core = aff[0][2]
+                    if aff[0][0] == "affix-whole":
+                        ck.ob("R10.2", "%s/gate-is-affix-test/%s" % (rn, core.op), tm.target, False,
+                              "the refusal test is %s: an affix/substring test of the whole signature text. Witness: a target of type "
+                              "`fn() -> fn() -> bool` (or `fn(u8) -> Option<fn() -> bool>`-like nestings) renders as a string that passes the "
+                              "test although its return type is not bool, so the forced boolean is accepted for it" % fmt(core, 5), where(eff[0]))
                     else:
-                        equal_edge = None
-                    if equal_edge is not None:
-                        ck.ob("R10.2", "%s/install-on-equal-edge" % rn, tm.target, equal_edge,
-                              "the installing path takes the %s edge of %s" % ("equal" if equal_edge else "NOT-equal", fmt(core, 5)), where(eff[0]))
+                        ck.ob("R10.2", "%s/gate-is-affix-test-on-part/%s" % (rn, core.op), tm.target, False,
+                              "the refusal test %s is an affix test on a derived part of the signature; equality with `bool` is required" % fmt(core, 5), where(eff[0]))
+                else:
+                    ck.ob("R10.2", "%s/installing-path-without-equality-with-bool" % rn, tm.target, False,
+                          "a path installs the forced boolean without having established that the recorded return type EQUALS `bool`; its "
+                          "signature-dependent tests are only: %s — e.g. a signature from which no return type can be extracted (unit "
+                          "function, unchecked handle with an empty signature) is accepted" % ("; ".join("%s=%s" % (fmt(g[0], 4), g[1]) for g in gates) or "none"), where(eff[0]))
             # the failing edge diverges without effects
             refused = [v for v in vs if v.status == "diverged" and not any(is_effect(e) for e in v.trace)
                        and any(dep_in(v, d[0]) for d in v.decisions)]
             ck.ob("R10.1", "%s/refusal-path" % rn, tm.target, bool(refused),
                   "%d path(s) on which the signature test fails and the call diverges before any allocation or write" % len(refused))
-            # R10.2 shape of the predicate
-            done = set()
-            for core, gv in gate_kinds:
-                if core in done:
-                    continue
-                done.add(core)
-                if core.op in AFFIX:
-                    subject, pat = core.args
-                    whole = subject == sig or (subject.op in ("trim", "trim_end", "trim_start") and subject.args[0] == sig)
-                    if whole:
-                        ck.ob("R10.2", "%s/gate-is-affix-test/%s" % (rn, core.op), tm.target, False,
-                              "the refusal test is %s: an affix/substring test of the whole signature text. Witness: a target of type "
-                              "`fn() -> fn() -> bool` (or `fn(u8) -> Option<fn() -> bool>`-like nestings) renders as a string that passes the "
-                              "test although its return type is not bool, so the forced boolean is accepted for it" % fmt(core, 5))
-                        continue
-                    ck.ob("R10.2", "%s/gate-is-affix-test-on-part/%s" % (rn, core.op), tm.target, False,
-                          "the refusal test %s is an affix test on a derived part of the signature; equality with `bool` is required" % fmt(core, 5))
-                    continue
-                # accepted: equality (PartialEq eq/ne) between something extracted from the signature by crate code and the literal bool
-                lv, strs, callees = deps(gv, core)
-                top = core.args[0] if core.op in ("ret",) else ""
-                is_eq = core.op in ("str_eq", "str_ne") or (core.op == "ret" and ("PartialEq" in top or top.endswith("::eq") or top.endswith("::ne")))
-                has_bool = any(s.strip() == "bool" for s in strs)
-                affix_inside = uses_leaf(core, lambda x: x.op in AFFIX)
-                extractor = [c for c in callees if tm.facts.body(c) is not None]
-                ok = is_eq and has_bool and not affix_inside
-                ck.ob("R10.2", "%s/gate-is-equality-with-bool" % rn, tm.target, ok,
-                      "the refusal test is %s; %s an equality (%s) against the literal `bool` of a part extracted from the recorded signature by %s" % (
-                          fmt(core, 6), "recognised as" if ok else "NOT recognised as", top or core.op,
-                          ", ".join(short(c) for c in extractor) or "no crate function"))
             ck.floor("R10.1", "%s/paths-with-effects" % rn, n_eff, 1, tm.target)
         # R10.3 the stub
         recs = patches.analyse(tm)
